@@ -43,16 +43,19 @@ class Pipeline(Instance):
     a sync round every pack_size contigs)."""
     crates = ("ragc-core", "ragc-common")
 
-    def __init__(self, name, threads, samples, k=3, splitters=(), preempt=1, driver="api", view="roundtrip", qcap=1 << 20, zstd="token", **cfg):
+    def __init__(self, name, threads, samples, k=3, splitters=(), preempt=1, driver="api", view="roundtrip", qcap=1 << 20, zstd="token", sym=(), sym_alpha=(0, 1, 2, 3, 4, 7, 30), edits=(), **cfg):
         Instance.__init__(self, name)
         self.threads, self.samples, self.k, self.splitters, self.cfg, self.preempt = threads, samples, k, splitters, cfg, preempt
         self.driver, self.view, self.qcap, self.zstd = driver, view, qcap, zstd
+        self.sym, self.sym_alpha = tuple(sym), tuple(sym_alpha)      # (sample index, contig index, position): bases that are symbolic over sym_alpha
+        self.edits = tuple(edits)        # (kind in subst/del/ins/rc, sample index, contig index): one edit at EVERY position (engine choice) with a symbolic base
         self.overflow_checks = driver != "single"      # single-file mode relies on wrapping i32 priorities (known finding F7): release semantics there
         self.required_witnesses = ("finalized",)
         self.max_wall = 3000
         self.n_concrete = 1
         self.bounds = {"worker threads": threads, "input": f"{len(samples)} sample(s), contigs {[len(d) for _, cs in samples for _, d in cs]} bases (concrete), k={k}, {len(splitters)} splitter k-mers",
-                       "driver": driver, "queue capacity (bytes)": qcap, "zstd stub": zstd + " (deterministic lossless codec; 'token' always shrinks, 'store' never does)", "config": {n: (v.v if hasattr(v, 'v') else v) for n, v in cfg.items()},
+                       "symbolic bases": [f"sample {si} contig {ci} position {pos} over codes {list(sym_alpha)}" for si, ci, pos in sym],
+                       "symbolic edits": [f"one {kind} in sample {si} contig {ci} at every position" + ("" if kind in ("del", "rc") else f" with every code of {list(sym_alpha)}") for kind, si, ci in edits], "driver": driver, "queue capacity (bytes)": qcap, "zstd stub": zstd + " (deterministic lossless codec; 'token' always shrinks, 'store' never does)", "config": {n: (v.v if hasattr(v, 'v') else v) for n, v in cfg.items()},
                        "schedules": f"every interleaving of producer and workers at lock/wait/barrier/sleep points with at most {preempt} preemption(s); blocking switches unbounded"}
 
     # ---------------------------------------------------------------- driving the real API
@@ -75,12 +78,51 @@ class Pipeline(Instance):
         e.prove(r.variant == 0, "pipe:create_failed", "with_splitters returned Err")
         return Cell(r.f[0])
 
+    def sym_data(self, e):
+        """the samples with the symbolic positions replaced by fresh symbolic bases (once per path)"""
+        if "sym_samples" not in e.h:
+            out = [(sn, [(cn, [x if isinstance(x, Int) else Int(8, 0, x) for x in d]) for cn, d in cs]) for sn, cs in self.samples]
+            for j, (si, ci, pos) in enumerate(self.sym):
+                out[si][1][ci][1][pos] = e.sym_bytes(f"b{j}", 1, among=list(self.sym_alpha))[0]
+            e.h["sym_list"] = [out[si][1][ci][1][pos] for si, ci, pos in self.sym]
+            for j, (kind, si, ci) in enumerate(self.edits):
+                d = out[si][1][ci][1]
+                if kind == "rc":
+                    if e.choose(2, f"rc{j}"):
+                        d[:] = [Int(8, 0, 3 - x.v if x.v < 4 else x.v) for x in reversed(d)]
+                    continue
+                pos = e.choose(len(d) + (1 if kind == "ins" else 0), f"pos{j}")
+                if kind == "del":
+                    del d[pos]
+                    continue
+                b = e.sym_bytes(f"e{j}", 1, among=list(self.sym_alpha))[0]
+                e.h["sym_list"].append(b)
+                if kind == "subst":
+                    d[pos] = b
+                else:
+                    d.insert(pos, b)
+            e.h["sym_samples"] = out
+        return e.h["sym_samples"]
+
+    def pin_symbols(self, e):
+        """decide the value of every symbolic base on this path (small alphabet: by branching), so results can be read concretely"""
+        vals = []
+        self.sym_data(e)
+        for b in e.h["sym_list"]:
+            v = None
+            for a in self.sym_alpha:
+                if e.branch(e.binop("Eq", b, Int(8, 0, a))):
+                    v = a; break
+            vals.append(v)
+        e.inputs["sym_values"] = vals
+        return vals
+
     def push(self, e, comp, sname, cname, data):
-        r = e.call_fn(CORE, "StreamingQueueCompressor::push", [Ref(comp), S(sname), S(cname), VecObj([Int(8, 0, x) for x in data])])
+        r = e.call_fn(CORE, "StreamingQueueCompressor::push", [Ref(comp), S(sname), S(cname), VecObj([x if isinstance(x, Int) else Int(8, 0, x) for x in data])])
         e.prove(r.variant == 0, "pipe:push_failed", "push returned Err")
 
     def drive(self, e, comp):
-        for si, (sname, contigs) in enumerate(self.samples):
+        for si, (sname, contigs) in enumerate(self.sym_data(e) if (self.sym or self.edits) else self.samples):
             if si == 1 and self.driver == "single":
                 r = e.call_fn(CORE, "StreamingQueueCompressor::drain", [Ref(comp)]); e.prove(r.variant == 0, "pipe:drain_failed", "drain returned Err")
                 e.witness("drained")
@@ -113,11 +155,13 @@ class Pipeline(Instance):
             if sname not in exp:
                 exp.append(sname)
         e.prove(got == exp, "pipe:sample_list", f"archive lists {got}, pushed {exp}")
+        ev = e.eval_concrete
+        src = self.sym_data(e) if (self.sym or self.edits) else self.samples
         for sname in exp:
             r = e.call_fn(CORE, "Decompressor::get_sample", [Ref(h), e.str_slice(sname)])
             e.prove(r.variant == 0, "pipe:extract_failed", f"get_sample({sname}) failed")
-            cs = [(bytes(x.v for x in e.vec_items(t.f[0])), [x.v for x in e.vec_items(t.f[1])]) for t in e.vec_items(r.f[0])]
-            want = [(c, list(d)) for sn, contigs in self.samples if sn == sname for c, d in contigs]
+            cs = [(bytes(ev(x) for x in e.vec_items(t.f[0])), [ev(x) for x in e.vec_items(t.f[1])]) for t in e.vec_items(r.f[0])]
+            want = [(c, [ev(x) if isinstance(x, Int) else x for x in d]) for sn, contigs in src if sn == sname for c, d in contigs]
             e.prove(cs == want, "pipe:roundtrip", f"sample {sname.decode()}: extracted {cs} != pushed {want}")
         e.witness("extracted")
 
@@ -156,6 +200,9 @@ class Pipeline(Instance):
         e.witness("finalized")
         if self._last_sched.preempts:
             e.witness("preempted")
+        if self.sym or self.edits:
+            self.pin_symbols(e)
+            e.inputs["samples"] = [[sn.decode(), [[cn.decode(), [e.eval_concrete(x) for x in d]] for cn, d in cs]] for sn, cs in self.sym_data(e)]
         if self.view in ("roundtrip", "all"):
             self.read_back(e)
         if self.view == "term":
@@ -208,6 +255,8 @@ class Pipeline(Instance):
         case = {"threads": self.threads, "k": self.k, "splitters": [str(kmer_canon(w)) for w in self.splitters], "driver": self.driver, "qcap": self.qcap,
                 "cfg": {n: (v.v if hasattr(v, "v") else v) for n, v in self.cfg.items()},
                 "samples": [[sn.decode(), [[cn.decode(), list(d)] for cn, d in cs]] for sn, cs in self.samples], "runs": 12 if self.view != "fault" else 0}
+        if inp.get("samples"):
+            case["samples"] = inp["samples"]
         if self.view == "fault":
             f = min(inp.get("phi", 0) / max(inp.get("N", 1), 1), 0.999)
             case["fault_fractions"] = sorted({round(x, 4) for x in (f, max(f - 0.02, 0.0), min(f + 0.02, 0.999), 0.0, 0.25, 0.5, 0.75, 0.9, 0.97)})
@@ -246,3 +295,7 @@ _reg(Pipeline("det_api_t2", 2, TWO, splitters=SPL, preempt=1, driver="api", view
 _reg(Pipeline("fault_api_t1", 1, TWO, splitters=SPL, preempt=0, driver="api", view="fault"))
 _reg(Pipeline("det_single_t2", 2, THREE, splitters=SPL, preempt=0, driver="single", view="determinism", pack_size=Int(64, 0, 2)))
 _reg(Pipeline("det_single_t2_p1", 2, THREE, splitters=SPL, preempt=1, driver="single", view="determinism", pack_size=Int(64, 0, 2)))
+_reg(Pipeline("sym1_api_t1", 1, TWO, splitters=SPL, preempt=0, driver="api", sym=[(1, 0, 8)]))
+_reg(Pipeline("sym2_api_t1", 1, TWO, splitters=SPL, preempt=0, driver="api", sym=[(1, 0, 5), (1, 0, 12)]))
+_reg(Pipeline("edit_subst_t1", 1, TWO, splitters=SPL, preempt=0, driver="api", edits=[("subst", 1, 0)]))
+_reg(Pipeline("edit_indel_rc_t1", 1, TWO, splitters=SPL, preempt=0, driver="api", edits=[("rc", 1, 0), ("del", 1, 0), ("ins", 1, 0)]))
